@@ -34,6 +34,7 @@ PARAMS = {
     "rayleigh": ["loc", "scale"],
     "gumbel_r": ["loc", "scale"],
     "sc_gengamma": ["a", "c", "loc", "scale"],
+    "normalmix": ["w", "mu1", "mu2", "sigma"],
 }
 
 DEFAULTS = {
@@ -48,6 +49,7 @@ DEFAULTS = {
     "rayleigh": {"loc": 0, "scale": 1},
     "gumbel_r": {"loc": 0, "scale": 1},
     "sc_gengamma": {"a": 1, "c": 1, "loc": 0, "scale": 1},
+    "normalmix": {"w": 0.5, "mu1": 0, "mu2": 5, "sigma": 1},
 }
 
 # support: ("pos") = (lower, inf) with lower >= 0 ; "real"
@@ -63,6 +65,7 @@ SUPPORT = {
     "rayleigh": "pos",
     "gumbel_r": "real",
     "sc_gengamma": "pos",
+    "normalmix": "real",
 }
 
 
@@ -135,6 +138,9 @@ def _scgg(p):
 # family functions
 # ----------------------------------------------------------------------
 def cdf(fam, x, **p):
+    if fam == "normalmix":
+        w = _f(p["w"])
+        return w * cdf("normal", x, mu=p["mu1"], sigma=p["sigma"]) + (1 - w) * cdf("normal", x, mu=p["mu2"], sigma=p["sigma"])
     if fam == "sc_gengamma":
         return cdf("gengamma", _f(x) - _f(p["loc"]), **_scgg(p))
     x = _f(x)
@@ -177,6 +183,9 @@ def cdf(fam, x, **p):
 
 
 def sf(fam, x, **p):
+    if fam == "normalmix":
+        w = _f(p["w"])
+        return w * sf("normal", x, mu=p["mu1"], sigma=p["sigma"]) + (1 - w) * sf("normal", x, mu=p["mu2"], sigma=p["sigma"])
     if fam == "sc_gengamma":
         return sf("gengamma", _f(x) - _f(p["loc"]), **_scgg(p))
     """Survival function, accurate in the upper tail."""
@@ -219,6 +228,9 @@ def sf(fam, x, **p):
 
 
 def pdf(fam, x, **p):
+    if fam == "normalmix":
+        w = _f(p["w"])
+        return w * pdf("normal", x, mu=p["mu1"], sigma=p["sigma"]) + (1 - w) * pdf("normal", x, mu=p["mu2"], sigma=p["sigma"])
     if fam == "sc_gengamma":
         return pdf("gengamma", _f(x) - _f(p["loc"]), **_scgg(p))
     x = _f(x)
@@ -321,6 +333,13 @@ def logpdf(fam, x, **p):
 
 
 def icdf(fam, q, **p):
+    if fam == "normalmix":
+        from scipy.optimize import brentq
+
+        q = _f(q)
+        lo = min(p["mu1"], p["mu2"]) - 40 * p["sigma"]
+        hi = max(p["mu1"], p["mu2"]) + 40 * p["sigma"]
+        return np.vectorize(lambda qq: brentq(lambda t: float(cdf("normalmix", t, **p)) - qq, lo, hi, xtol=1e-13) if 0 < qq < 1 else (lo if qq <= 0 else hi))(q)
     if fam == "sc_gengamma":
         return _f(p["loc"]) + icdf("gengamma", q, **_scgg(p))
     q = _f(q)
@@ -370,6 +389,8 @@ def isf(fam, s, **p):
     """Inverse survival function (upper tail without cancellation)."""
     if fam == "sc_gengamma":
         return _f(p["loc"]) + isf("gengamma", s, **_scgg(p))
+    if fam == "normalmix":
+        return icdf(fam, 1.0 - _f(s), **p)
     s = _f(s)
     with np.errstate(all="ignore"):
         if fam == "weibull":
@@ -434,6 +455,8 @@ def admissible(fam, p):
             return p["scale"] > 0
         if fam == "sc_gengamma":
             return p["a"] > 0 and p["c"] > 0 and p["scale"] > 0
+        if fam == "normalmix":
+            return 0 < p["w"] < 1 and p["sigma"] > 0
     except (KeyError, TypeError):
         return False
     return False
